@@ -6,15 +6,23 @@
    tokens  = the token stream a document has under fun.lalrpop's lexer, independent of layout
    parse   = the grammar of fun.lalrpop on a token list                               (Model/Parser.v)
    wf_prog = "parser shaped": a tree the parser can produce                            (Proof/FmtDefs.v)
-   zsafe_prog = no `if` has a literal 0 adjacent to its comparison operator            (Model/FmtClass.v) *)
+
+   The zero-literal defect (two findings of C16: a literal 0 of an operand printed next to the
+   comparison operator of an `if` changed the tree or made the text unparsable) is REPAIRED in /repo
+   (fix commit <commit>): d_prog models the repaired `impl Print for IfC`, and the round trip and
+   idempotence hold WITHOUT a guard.  old_d_prog = the printer before the repair, zsafe_prog = the guard
+   the theorems needed then (no `if` has a literal 0 adjacent to its operator; Model/FmtClass.v): they
+   only occur in the regression statements at the end. *)
 From Coq Require Import List ZArith NArith String Bool.
+From SCC Require Import Base.Sexp.
 From SCC Require Import Lang.FunSyn Model.Printer Model.Parser Model.Pretty Model.FmtClass Proof.FmtDefs Proof.FmtLex Proof.FmtPretty Proof.FmtProof.
 
 (* Layout independence.  [renders d s]: s arises from the document d by writing every atom as its text,
    every space / line / hardline as ANY non-empty string of blanks and every line_ as ANY string of
    blanks, chosen independently at each occurrence (an over-approximation of the `pretty` crate: all
    widths, all indentations, all group decisions).  Every such text of a printed parser-shaped
-   program lexes to one and the same token stream.  No guard: this also holds inside the defect class. *)
+   program lexes to one and the same token stream.  (The one comment the repaired printer writes,
+   `//` + hardline, renders as "//", a newline and any string of blanks.) *)
 Theorem C16_layout_independent :
   forall c p s, wf_prog p = true -> renders (d_prog c p) s -> lex_string s = Some (tokens (d_prog c p)).
 Proof. exact layout_independent. Qed.
@@ -31,59 +39,39 @@ Proof. exact print_is_safe. Qed.
 Print Assumptions C16_print_is_safe.
 
 (* Full strength: for every configuration and every parser-shaped program, parsing the printed
-   program yields the same tree.  This is FALSE of the faithful model (and of the implementation):
-   `if 1 == -0 { 1 } else { 2 }` comes back as the zero-comparison form. *)
-Theorem C16_roundtrip_refuted :
-  ~ (forall c p, wf_prog p = true -> parse (tokens (d_prog c p)) = Some p).
-Proof. exact roundtrip_refuted. Qed.
-Print Assumptions C16_roundtrip_refuted.
-
-(* ... and the output may not parse at all (`if 0 == x + -0 {..}` prints as `if x + 0 == 0 {..}`). *)
-Theorem C16_unparsable_output_refuted :
-  exists c p, wf_prog p = true /\ parse (tokens (d_prog c p)) = None.
-Proof. exact unparsable_output. Qed.
-Print Assumptions C16_unparsable_output_refuted.
-
-(* Under the decidable guard that excludes the defect class - and nothing else that the
-   correspondence run could find: the closed form `renorm` of the class is compared with the
-   implementation on every case - the round trip holds for every configuration. *)
-Theorem C16_roundtrip_guarded :
-  forall c p, wf_prog p = true -> zsafe_prog p = true -> parse (tokens (d_prog c p)) = Some p.
-Proof. exact roundtrip_guarded. Qed.
-Print Assumptions C16_roundtrip_guarded.
-
-(* The guard is contained in "the defect-class model predicts an unchanged tree". *)
-Theorem C16_guard_within_class_model :
-  forall p, zsafe_prog p = true -> renorm p = Some p.
-Proof. exact zsafe_renorm. Qed.
-Print Assumptions C16_guard_within_class_model.
+   program yields the same tree.  tokens_print (the glued atom stream of the document is the direct
+   token printer T_prog) + roundtrip_tokens (the parser reads T_prog p back to p). *)
+Theorem C16_roundtrip :
+  forall c p, wf_prog p = true -> parse (tokens (d_prog c p)) = Some p.
+Proof. exact roundtrip. Qed.
+Print Assumptions C16_roundtrip.
 
 (* Printing the reparsed program gives the same document (hence the same text at that configuration). *)
-Theorem C16_idempotent_guarded :
-  forall c p, wf_prog p = true -> zsafe_prog p = true ->
+Theorem C16_idempotent :
+  forall c p, wf_prog p = true ->
     option_map (d_prog c) (parse (tokens (d_prog c p))) = Some (d_prog c p).
-Proof. exact idempotent_guarded. Qed.
-Print Assumptions C16_idempotent_guarded.
+Proof. exact idempotent. Qed.
+Print Assumptions C16_idempotent.
 
-(* Without the guard even the token stream of the second print differs (`if 0 > -0`). *)
-Theorem C16_idempotent_refuted :
-  ~ (forall c p q, wf_prog p = true -> parse (tokens (d_prog c p)) = Some q ->
-                   tokens (d_prog c q) = tokens (d_prog c p)).
-Proof. exact idempotent_refuted. Qed.
-Print Assumptions C16_idempotent_refuted.
+(* the statement that was refuted before the repair (`if 0 > -0`), now positively *)
+Theorem C16_idempotent_tokens :
+  forall c p q, wf_prog p = true -> parse (tokens (d_prog c p)) = Some q ->
+                tokens (d_prog c q) = tokens (d_prog c p).
+Proof. exact idempotent_tokens. Qed.
+Print Assumptions C16_idempotent_tokens.
 
 (* The property on text: formatting at any width and indentation (indeed any layout) and parsing the
    result yields the same tree; formatting that again with any configuration yields the same document. *)
-Theorem C16_roundtrip_text_guarded :
-  forall c p s, wf_prog p = true -> zsafe_prog p = true -> renders (d_prog c p) s -> parse_text s = Some p.
-Proof. exact roundtrip_text_guarded. Qed.
-Print Assumptions C16_roundtrip_text_guarded.
+Theorem C16_roundtrip_text :
+  forall c p s, wf_prog p = true -> renders (d_prog c p) s -> parse_text s = Some p.
+Proof. exact roundtrip_text. Qed.
+Print Assumptions C16_roundtrip_text.
 
-Theorem C16_idempotent_text_guarded :
-  forall c c2 p s, wf_prog p = true -> zsafe_prog p = true -> renders (d_prog c p) s ->
+Theorem C16_idempotent_text :
+  forall c c2 p s, wf_prog p = true -> renders (d_prog c p) s ->
     option_map (d_prog c2) (parse_text s) = Some (d_prog c2 p).
-Proof. exact idempotent_text_guarded. Qed.
-Print Assumptions C16_idempotent_text_guarded.
+Proof. exact idempotent_text. Qed.
+Print Assumptions C16_idempotent_text.
 
 (* The layout algorithm of the `pretty` crate as modelled in Model/Pretty.v (compared with the real
    output byte for byte on every run) produces one of the layouts quantified over above; so for the
@@ -93,14 +81,83 @@ Theorem C16_pretty_layout_is_a_rendering :
 Proof. exact render_renders. Qed.
 Print Assumptions C16_pretty_layout_is_a_rendering.
 
-Theorem C16_roundtrip_pretty_guarded :
-  forall c p, wf_prog p = true -> zsafe_prog p = true -> parse_text (render (pwidth c) (d_prog c p)) = Some p.
-Proof. exact roundtrip_pretty_guarded. Qed.
-Print Assumptions C16_roundtrip_pretty_guarded.
+Theorem C16_roundtrip_pretty :
+  forall c p, wf_prog p = true -> parse_text (render (pwidth c) (d_prog c p)) = Some p.
+Proof. exact roundtrip_pretty. Qed.
+Print Assumptions C16_roundtrip_pretty.
 
-Theorem C16_idempotent_pretty_guarded :
-  forall c p, wf_prog p = true -> zsafe_prog p = true ->
+Theorem C16_idempotent_pretty :
+  forall c p, wf_prog p = true ->
     option_map (fun q => render (pwidth c) (d_prog c q)) (parse_text (render (pwidth c) (d_prog c p)))
     = Some (render (pwidth c) (d_prog c p)).
-Proof. exact idempotent_pretty_guarded. Qed.
-Print Assumptions C16_idempotent_pretty_guarded.
+Proof. exact idempotent_pretty. Qed.
+Print Assumptions C16_idempotent_pretty.
+
+(* ---------- REPAIRED defect (fix commit <commit> of /repo), kept as regression statements ----------
+   Before the fix `impl Print for IfC` wrote `if fst cmp snd` / `if fst cmp 0` whatever the operands
+   were; a literal 0 that ends fst or starts snd then stood next to the operator and the lexer fused
+   them (r"0\s*==", r"==\s*0", ...).  [old_d_prog] is the model of that printer (only used here). *)
+
+(* `if 1 == -0 { 1 } else { 2 }` came back as the zero-comparison form. *)
+Theorem C16_roundtrip_refuted_before_fix :
+  ~ (forall c p, wf_prog p = true -> parse (tokens (old_d_prog c p)) = Some p).
+Proof. exact old_roundtrip_refuted. Qed.
+Print Assumptions C16_roundtrip_refuted_before_fix.
+
+(* ... and the output might not parse at all (`if 0 == x + -0 {..}` was printed `if x + 0 == 0 {..}`). *)
+Theorem C16_unparsable_output_before_fix :
+  exists c p, wf_prog p = true /\ parse (tokens (old_d_prog c p)) = None.
+Proof. exact old_unparsable_output. Qed.
+Print Assumptions C16_unparsable_output_before_fix.
+
+(* Even the token stream of the second print differed (`if 0 > -0`: `0 < 0`, then `0 > 0`). *)
+Theorem C16_idempotent_refuted_before_fix :
+  ~ (forall c p q, wf_prog p = true -> parse (tokens (old_d_prog c p)) = Some q ->
+                   tokens (old_d_prog c q) = tokens (old_d_prog c p)).
+Proof. exact old_idempotent_refuted. Qed.
+Print Assumptions C16_idempotent_refuted_before_fix.
+
+(* The CURRENT printer on the witnesses (corpus/fun/c16_*.sc; the model follows the repaired code and
+   is compared with it byte for byte on every run, these files included): `-0` for a leading 0 of the
+   second operand, the zero-left form for a zero comparison whose operand ends in 0, a comment where the
+   first operand of a general comparison ends in 0; each text parses back to its program. *)
+Theorem C16_witnesses_fixed :
+  render 80 (d_prog wit_cfg wit_minus_zero)
+    = ("def main(): i64 {" ++ nl ++ "    if 1 == -0 { 1 } else { 2 }" ++ nl ++ "}")%string /\
+  render 80 (d_prog wit_cfg wit_unparsable)
+    = ("def main(x: i64): i64 {" ++ nl ++ "    if 0 == x + 0 { 1 } else { 2 }" ++ nl ++ "}")%string /\
+  render 80 (d_prog wit_cfg wit_flip)
+    = ("def main(): i64 {" ++ nl ++ "    if 0 > 0 { 1 } else { 2 }" ++ nl ++ "}")%string /\
+  render 80 (d_prog wit_cfg wit_comment)
+    = ("def main(x: i64): i64 {" ++ nl ++ "    if 0 //" ++ nl ++ "    < x {" ++ nl ++ "        1" ++ nl ++ "    } else {" ++ nl
+       ++ "        2" ++ nl ++ "    }" ++ nl ++ "}")%string /\
+  render 80 (d_prog wit_cfg wit_snd_op)
+    = ("def main(x: i64): i64 {" ++ nl ++ "    if x == -0 + 1 { 1 } else { 2 }" ++ nl ++ "}")%string /\
+  parse_text (render 80 (d_prog wit_cfg wit_minus_zero)) = Some wit_minus_zero /\
+  parse_text (render 80 (d_prog wit_cfg wit_unparsable)) = Some wit_unparsable /\
+  parse_text (render 80 (d_prog wit_cfg wit_flip)) = Some wit_flip /\
+  parse_text (render 80 (d_prog wit_cfg wit_comment)) = Some wit_comment /\
+  parse_text (render 80 (d_prog wit_cfg wit_snd_op)) = Some wit_snd_op.
+Proof. exact witnesses_fixed. Qed.
+Print Assumptions C16_witnesses_fixed.
+
+(* The repair is conservative: outside the repaired class the new printer builds the very same
+   document as the old one (so the same text at every width and indentation) ... *)
+Theorem C16_repair_conservative :
+  forall c p, zsafe_prog p = true -> d_prog c p = old_d_prog c p.
+Proof. exact repair_conservative. Qed.
+Print Assumptions C16_repair_conservative.
+
+(* ... hence the guarded theorem of the old printer still stands (the guard is satisfiable by a program
+   with every kind of comparison: FmtProof.zsafe_example) ... *)
+Theorem C16_roundtrip_guarded_before_fix :
+  forall c p, wf_prog p = true -> zsafe_prog p = true -> parse (tokens (old_d_prog c p)) = Some p.
+Proof. exact old_roundtrip_guarded. Qed.
+Print Assumptions C16_roundtrip_guarded_before_fix.
+
+(* ... and the guard is contained in "the closed form of the old behaviour predicts an unchanged tree"
+   ([old_renorm], which the correspondence run uses to name a recurrence of the repaired class). *)
+Theorem C16_guard_within_class_model :
+  forall p, zsafe_prog p = true -> old_renorm p = Some p.
+Proof. exact zsafe_renorm. Qed.
+Print Assumptions C16_guard_within_class_model.
